@@ -5,6 +5,7 @@ package storevc
 
 import (
 	"fmt"
+	"math"
 	"sort"
 	"strconv"
 	"strings"
@@ -474,10 +475,10 @@ func TTLUniverses() []*TTLUniverse {
 	return []*TTLUniverse{
 		{Name: "kv", Keys: [][2]string{{"kv", "t:k"}, {"kv", "t:d"}}, Cmds: [][]string{
 			{"set", "t:k", "v"}, {"setex", "t:k", "1", "w"}, {"setex", "t:k", "2", "1"}, {"expire", "t:k", "1"}, {"expire", "t:k", "2"}, {"persist", "t:k"},
-			{"append", "t:k", "x"}, {"incr", "t:k"}, {"getset", "t:k", "g"}, {"setnx", "t:k", "n"}, {"del", "t:k"}, {"setex", "t:d", "2", "decoy"}}},
+			{"append", "t:k", "x"}, {"incr", "t:k"}, {"getset", "t:k", "g"}, {"setnx", "t:k", "n"}, {"del", "t:k"}, {"setex", "t:d", "2", "decoy"}, {"expire", "t:k", farTTL}}},
 		{Name: "hash", Keys: [][2]string{{"hash", "t:h"}, {"hash", "t:d"}}, Cmds: [][]string{
 			{"hset", "t:h", "a", "1"}, {"hset", "t:h", "b", "2"}, {"hexpire", "t:h", "1"}, {"hexpire", "t:h", "2"}, {"hpersist", "t:h"}, {"hdel", "t:h", "a"},
-			{"hincrby", "t:h", "a", "1"}, {"hclear", "t:h"}, {"hset", "t:d", "x", "decoy"}, {"hexpire", "t:d", "2"}}},
+			{"hincrby", "t:h", "a", "1"}, {"hclear", "t:h"}, {"hset", "t:d", "x", "decoy"}, {"hexpire", "t:d", "2"}, {"hexpire", "t:h", farTTL}}},
 		{Name: "list", Keys: [][2]string{{"list", "t:l"}}, Cmds: [][]string{
 			{"lpush", "t:l", "a"}, {"rpush", "t:l", "b"}, {"lexpire", "t:l", "1"}, {"lexpire", "t:l", "2"}, {"lpersist", "t:l"}, {"lpop", "t:l"}, {"lclear", "t:l"}}},
 		{Name: "set", Keys: [][2]string{{"set", "t:s"}}, Cmds: [][]string{
@@ -502,6 +503,10 @@ type TTLResult struct {
 	ExpiredObserved            int // states in which at least one key was expired at its own clock
 	SweepRemoved               int
 }
+
+// the farthest expiry the store accepts at every clock of the search (ExpireAt = MaxUint32-2 at clock 3):
+// still decades away, a compaction must not touch it
+var farTTL = strconv.FormatInt(int64(math.MaxUint32)-2-T0-3, 10)
 
 const maxClock = 3
 const lazySec = 48 * 3600
